@@ -487,7 +487,8 @@ static void pton_grammar(unsigned long count)
         switch (kind) {
         case 0: /* a.b.c.d/n */
             n = rnd() % 33;
-            sprintf(buf, "%u.%u.%u.%u/%u", a, b, c, d, n);
+            /* a prefix length is a decimal number, also when it is written with leading zeros */
+            sprintf(buf, (rnd() % 4) ? "%u.%u.%u.%u/%u" : (rnd() & 1) ? "%u.%u.%u.%u/%02u" : "%u.%u.%u.%u/%03u", a, b, c, d, n);
             net.in6[5] = htons(65535); net.in6_8[12] = a; net.in6_8[13] = b; net.in6_8[14] = c; net.in6_8[15] = d;
             check_expect(buf, 96 + n, &net, 1);
             break;
@@ -509,7 +510,7 @@ static void pton_grammar(unsigned long count)
                 net.in6[g] = htons(v);
                 sprintf(buf + strlen(buf), "%x:", v);
             }
-            sprintf(buf + strlen(buf), ":/%u", n);
+            sprintf(buf + strlen(buf), (rnd() % 4) ? ":/%u" : (rnd() & 1) ? ":/%03u" : ":/%04u", n);
             check_expect(buf, n, &net, 1);
             break;
         case 3: /* x:y:* */
